@@ -714,6 +714,18 @@ func (r *runner) resolveCompletedTasks(ctx context.Context, completedTasks []*ta
 				writeChannelValues[next][t.nodeKey] = vs[i]
 			}
 		}
+
+		// One copy was prepared per branch. A branch that selected no successor (a multi-choice branch may) leaves
+		// its copy without a reader: an unclosed stream copy keeps the source open.
+		spare := vs[len(nextNodeKeys):]
+		if len(nextNodeKeys) == 0 {
+			spare = vs[:len(t.call.writeTo)+len(t.call.writeToBranches)]
+		}
+		for _, v := range spare {
+			if sr, ok := v.(streamReader); ok {
+				sr.close()
+			}
+		}
 	}
 	return writeChannelValues, newDependencies, nil
 }
